@@ -167,6 +167,19 @@ def run(ctx):
         one(ctx, data, "etree", None, "random-bytes")
         if i % 4 == 0:
             one(ctx, data, "dom", None, "random-bytes-stream")
+    # skeleton stress: an end tag of a structural element met inside every kind of open context, followed by content
+    pres = ["", "<svg>", "<math>", "<svg><g>", "<math><mi>", "<svg><foreignObject>", "<svg><title>", "<math><annotation-xml encoding=text/html>",
+            "<table>", "<table><tr><td>", "<table><caption>", "<select>", "<table><tr><td><select>", "<frameset>", "<head>", "<head><noscript>",
+            "<template>", "<p><b>", "<button><object>", "<body class=a><svg><g>", "<!DOCTYPE html>a<math><mi>", "<textarea>", "<ruby><rt>"]
+    ends = ["body", "html", "head", "p", "br", "form", "template", "frameset", "table", "select", "svg", "math", "title", "td",
+            "caption", "noscript", "g", "mi", "foreignObject", "object", "button", "a", "b", "div", "sarcasm"]
+    tails = ["x", "<p>after", "<!--c-->y", " ", "<frameset>", "<head>z"]
+    k = 0
+    for pre in pres:
+        for e in ends:
+            for tail in tails:
+                k += 1
+                one(ctx, pre + "</" + e + ">" + tail, "dom" if k % 2 else "etree", None, "skeleton-stress", scripting=(k % 5 == 0))
     docs = ["<!DOCTYPE html><table><tr><td><b><p>x</b></p><select><option>a</select></table><svg><foreignObject><p>y</svg>",
             "<frameset><frame></frameset><noframes>x</noframes><!-- c -->", "<a><table><a>x</table></a><b><i></b></i>"]
     for d in docs:
